@@ -511,7 +511,7 @@ const KEYS: &[&str] = &[
 
 const INTS: &[&str] = &[
     "0", "1", "-1", "5", "1000", "10001", "2147483647", "2147483648", "-2147483649", "9223372036854775807", "9223372036854775808", "18446744073709551615",
-    "18446744073709551616", "00", "+5", "12abc", "1e3", "", " 1", "1 ", "0x10",
+    "18446744073709551616", "00", "+5", "12abc", "1e3", "", " 1", "1 ", "0x10", "\u{0}", "7\u{1}", "1\r", "\u{1b}[31m", "<1>", "1&2",
 ];
 const TIMES: &[&str] = &[
     "Wed, 21 Oct 2015 07:28:00 GMT", "2015-10-21T07:28:00Z", "2015-10-21T07:28:00.000Z", "2015-10-21T07:28:00+08:00", "1445412480", "Wed, 21 Oct 2015",
@@ -583,7 +583,7 @@ fn pick_str(rng: &mut Rng, xs: &[&str]) -> Vec<u8> {
 }
 
 fn value_for(rng: &mut Rng, name: &str) -> Vec<u8> {
-    if rng.chance(1, 14) {
+    if rng.chance(1, 60) {
         return RAW_VALUES[rng.below(RAW_VALUES.len() as u64) as usize].to_vec();
     }
     if rng.chance(1, 60) {
@@ -889,7 +889,7 @@ fn add_auth(rng: &mut Rng, r: &mut Req) {
             // V4 presigned
             let expires = if rng.chance(1, 6) { pick_str(rng, INTS) } else { b"3600".to_vec() };
             r.query.push((b"X-Amz-Algorithm".to_vec(), Some(b"AWS4-HMAC-SHA256".to_vec())));
-            r.query.push((b"X-Amz-Credential".to_vec(), Some(pct(scope.as_bytes()).into_iter().flat_map(|b| if b == b'/' { b"%2F".to_vec() } else { vec![b] }).collect())));
+            r.query.push((b"X-Amz-Credential".to_vec(), Some(scope.replace('/', "%2F").into_bytes())));
             r.query.push((b"X-Amz-Date".to_vec(), Some(b"@NOW@".to_vec())));
             r.query.push((b"X-Amz-Expires".to_vec(), Some(pct(&expires))));
             r.query.push((b"X-Amz-SignedHeaders".to_vec(), Some(b"host".to_vec())));
@@ -1100,6 +1100,12 @@ fn build_malformed(rng: &mut Rng, tree: &Tree) -> Req {
         path.push(b'/');
     }
     let refused = rng.chance(1, 40);
+    if rng.chance(1, 2) && path.len() == 1 {
+        path.extend_from_slice(&pick_str(rng, BUCKETS));
+        if rng.chance(4, 5) {
+            path.push(b'/');
+        }
+    }
     let n = match rng.below(8) {
         0 => 0,
         1..=5 => rng.range(1, 30),
@@ -1234,6 +1240,10 @@ fn generate(rng: &mut Rng, n: u64, _tier: &str, emit: &mut dyn FnMut(Vec<String>
             }
         }
         let _ = req.body_len();
+        // `HeaderValue` refuses control characters: keep the value pools usable for headers and queries alike
+        for (_, v) in &mut req.headers {
+            v.retain(|b| (*b >= 32 && *b != 127) || *b == 9);
+        }
         emit(vec![
             format!("{auth}/{access}/{host}/{route}"),
             backend.to_owned(),
